@@ -537,12 +537,14 @@ func (proj *Project) loadModule(waiter *module, label *label.Label) (starlark.St
 	proj.m.Lock()
 	if m, ok := proj.modules[label.String()]; ok {
 		proj.m.Unlock()
+		verifPoint("module.found-registered", label.String())
 
 		if waiter != nil {
 			waiter.setLoading(m)
 			defer waiter.setLoading(nil)
 		}
 
+		verifPoint("module.before-wait", label.String())
 		return m.wait(waiter)
 	}
 
@@ -550,6 +552,7 @@ func (proj *Project) loadModule(waiter *module, label *label.Label) (starlark.St
 	m.cond = sync.NewCond(&m.m)
 	proj.modules[label.String()] = m
 	proj.m.Unlock()
+	verifPoint("module.registered", label.String())
 
 	if waiter != nil {
 		waiter.setLoading(m)
